@@ -14,7 +14,9 @@ import (
 	"pgregory.net/rapid"
 
 	"verif/internal/bed"
+	"verif/internal/ev"
 	"verif/internal/imapc"
+	"verif/internal/kf"
 	"verif/internal/mach"
 	"verif/internal/vconn"
 )
@@ -83,6 +85,8 @@ type env struct {
 	watchdog  time.Duration
 
 	lastList, lastLsub []string
+
+	rekeyedUndrained bool // a MessageIDChanged was delivered without draining the acting session first (finding not listed)
 
 	// evidence
 	labels          map[string]int
@@ -280,6 +284,31 @@ func (e *env) prepareObserver(d *desc, focus bool) {
 			e.harness("observer cannot be brought up")
 		}
 	}
+}
+
+func (e *env) drainAct() {
+	if alive(e.act) && e.act.Selected != "" {
+		e.barrier()
+		e.act.Do("NOOP")
+
+		if e.act.Dead {
+			e.drop(&e.act)
+		}
+	}
+}
+
+func lastCalls(c *vconn.Conn, n int) []string {
+	var res []string
+
+	c.Lock(func() {
+		res = append(res, c.Calls...)
+	})
+
+	if len(res) > n {
+		res = res[len(res)-n:]
+	}
+
+	return res
 }
 
 // quiet is oracle (5): after an update that restates the current state the observer's next NOOP carries no EXISTS,
@@ -642,6 +671,10 @@ func (e *env) checkRemote(after string) {
 		}
 	})
 
+	if diff != "" && e.rekeyedUndrained {
+		e.fail("after %s the remote side departs from what the updates and commands describe (%s): a MessageIDChanged was applied while the acting session had not flushed everything queued for it, and the session named a message by its old remote id when calling the connector (calls: %v)", after, diff, lastCalls(e.u.Conn, 6))
+	}
+
 	if diff != "" {
 		e.harness("after %s the remote model departs from the reference model: %s", after, diff)
 	}
@@ -807,6 +840,16 @@ func (e *env) deliver(d *desc, redelivery, focus bool) {
 	}
 
 	e.prepareObserver(d, focus)
+
+	if d.kind == kMessageIDChanged && v.class == "valid" && v.apply != nil {
+		if kf.Listed(kfStaleRemoteID) {
+			// steer around C06-message-id-change-misses-pending-exists: no session holds an unflushed EXISTS
+			e.drainAct()
+			ev.Excluded(1)
+		} else {
+			e.rekeyedUndrained = true
+		}
+	}
 
 	before := e.m.canon()
 	what := fmt.Sprintf("%s [%s:%s]", d, v.class, v.why)
